@@ -247,7 +247,7 @@ func (w *world) onEvent(e *simapi.Event) {
 		l := []any{}
 		for _, r := range w.post()["revs"].([]any) {
 			rm := r.(map[string]any)
-			l = append(l, map[string]any{"d": rm["d"], "num": rm["num"]})
+			l = append(l, map[string]any{"d": rm["d"], "num": rm["num"], "ctrl": rm["ctrl"]})
 		}
 		w.seen["listed"] = l
 	}
